@@ -1,6 +1,7 @@
 import PegVerif.Proofs.Attempts
 import PegVerif.Proofs.BoundaryEval
 import PegVerif.Proofs.Sentinel
+import PegVerif.Proofs.NonVacuity
 /-
   C10 – a failed parse reports a real failure offset – the furthest one without memo.
 
@@ -87,5 +88,76 @@ example : reportedErr SentinelExample.envBaseFirst 30 "A" [99] = some ⟨0, .lef
 theorem C10_memoized_rule_in_cycle_leaks_sentinel :
     reportedErr SentinelExample.envMemo 30 "S" [122] = some ⟨0, .leftRecursionSentinel⟩ :=
   SentinelExample.envMemo_reported
+
+/-! ## non-vacuity (BEGIN) -/
+namespace C10_nv
+open Peg.NV
+
+theorem noMemoG_of {g : Grammar} (h : noMemoB g = true) : NoMemoG g := by
+  intro r hr
+  have := (List.all_eq_true.mp h) _ hr
+  simpa [noMemoB] using this
+
+/-! instance: `@export S = first:Num {'+' rest:Num} $ | word:Word $; @string Num = {'0'..'9'}+; @string Word = {'a'..'z'}+;`
+    on `"1+2?"`: failed attempts at three different offsets – `Word` at 0, a further digit at 1, and at the furthest
+    offset 3 a digit, `'+'` and finally `$` -/
+def ruleS10 : Rule :=
+  ⟨[.export], "S",
+    .choice [.seq [.field (some (.ident "first")) false "Num",
+                   .closure (.choice [.seq [lit '+', .field (some (.ident "rest")) false "Num"]]) false, .eoi],
+             .seq [.field (some (.ident "word")) false "Word", .eoi]]⟩
+def env10 : Env := { g := ⟨[.rule ruleS10, .rule (ruleNum []), .rule ruleWord]⟩, settings := {}, hooks := default, nf := 10 }
+def txt : List Char := ['1', '+', '2', '?']
+def inp : List UInt8 := enc txt
+
+theorem hp : PureHooks env10.hooks := pure_default
+theorem hnm : NoMemoG env10.g := noMemoG_of (by decide)
+theorem hx : GoodExterns env10.hooks := fun _ _ _ _ _ _ h => by cases h
+
+/-- the attempts, chronologically, and the reported error: the LAST attempt at the FURTHEST offset -/
+example : (Att.parse env10 0 20 "S" inp).map (·.2) =
+      some [⟨1, .expectedCharacterRange '0' '9'⟩, ⟨3, .expectedCharacterRange '0' '9'⟩, ⟨3, .expectedCharacter '+'⟩,
+            ⟨3, .expectedEoi⟩, ⟨0, .expectedCharacterRange 'a' 'z'⟩] ∧
+    reported (parseAdvanced env10 20 "S" inp 0) = some ⟨3, .expectedEoi⟩ := by decide
+
+/-- the premise `parseAdvanced … = some (.err e, g')`, then the four theorems, `C10_boundary` and the projection -/
+example : ∃ e g', parseAdvanced env10 20 "S" inp 0 = some (.err e, g') ∧ e = ⟨3, .expectedEoi⟩ ∧
+    (∃ atts, Att.parse env10 0 20 "S" inp = some (.err Spec.noErr, atts) ∧ e ∈ atts ∧ ∀ a ∈ atts, a.pos ≤ e.pos) ∧
+    (∃ atts pre post, Att.parse env10 0 20 "S" inp = some (.err Spec.noErr, atts) ∧ atts = pre ++ e :: post ∧
+      (∀ a ∈ pre, a.pos ≤ e.pos) ∧ (∀ a ∈ post, a.pos < e.pos)) ∧
+    (e.spec ≠ .leftRecursionSentinel ∧ e.spec ≠ .other) ∧
+    (IsBoundary txt e.pos ∧ e.pos ≤ (enc txt).length) := by
+  obtain ⟨e, g', h, he⟩ := err_of (o := parseAdvanced env10 20 "S" inp 0) (fun e _ => e == ⟨3, .expectedEoi⟩) (by decide)
+  exact ⟨e, g', h, by simpa using he, C10_furthest env10 hp hnm 20 "S" inp 0 h, C10_last_at_position env10 hp hnm 20 "S" inp 0 h,
+    C10_no_sentinel_partial env10 hp hnm 20 "S" inp 0 h, C10_boundary env10 txt hx "S" 20 0 h⟩
+example : ∃ e g', parseAdvanced env10 20 "S" inp 0 = some (.err e, g') ∧
+    ∃ atts, Att.parse env10 0 20 "S" inp = some (.err Spec.noErr, atts) ∧ e ∈ atts := by
+  obtain ⟨e, g', h, -⟩ := err_of (o := parseAdvanced env10 20 "S" inp 0) (fun _ _ => true) (by decide)
+  exact ⟨e, g', h, C10_is_attempt env10 hp hnm 20 "S" inp 0 h⟩
+example : (Att.parse env10 0 20 "S" inp).map (·.1) = Spec.parse env10 0 20 "S" inp :=
+  C10_attempt_semantics_is_spec env10 0 20 "S" inp
+
+/-! `C10_no_sentinel` on the precedence tower `SentinelExample.envT`
+    (`@export @leftrec E = E '+' T | T; @leftrec T = T '*' F | F; F = Num | '(' E ')';`), failing input `"(1"` -/
+open SentinelExample in
+example : ∃ e g', parseAdvanced envT 60 "E" [40, 49] 0 = some (.err e, g') ∧ e = ⟨2, .expectedCharacter ')'⟩ ∧
+    e.spec ≠ .leftRecursionSentinel := by
+  obtain ⟨e, g', h, he⟩ := err_of (o := parseAdvanced envT 60 "E" [40, 49] 0) (fun e _ => e == ⟨2, .expectedCharacter ')'⟩)
+    (by decide)
+  exact ⟨e, g', h, by simpa using he, C10_no_sentinel envT lvlT 10 (by decide) 60 "E" [40, 49] 0 h⟩
+
+/-! `C10_recursive_first_shape` at the rule `E` of `LeftRecExample.envE` (`recs` = the recursive alternative, `bases` =
+    `b:Num`): its hypotheses hold and the concluded check evaluates to `true` -/
+open LeftRecExample in
+example : SN.chk envE.g envE.settings (fun _ => 0) (8 + 1) 0 true true ruleE.definition = true := by
+  have := C10_recursive_first_shape envE.g envE.settings (fun _ => 0) 8 0 true
+    [.seq [.field (some (.ident "l")) true "E", .lit false [.chr '+'], .field (some (.ident "r")) false "Num"]]
+    [.seq [.field (some (.ident "b")) false "Num"]] (by decide)
+    (fun a ha => by simp only [List.mem_singleton] at ha; subst ha; decide)
+    (fun a ha => by simp only [List.mem_singleton] at ha; subst ha; decide)
+  exact this
+
+end C10_nv
+/-! ## non-vacuity (END) -/
 
 end Peg.Props
